@@ -159,6 +159,8 @@ def run(F, rep):
         rep.floor("C20-K4", n4, 10, "shift / arithmetic sites of the k-mer module (functions the tool can reach)")
     # ------------------------------------------------------------ K5 / K6: the sliding window in the 2-bit slot domain
     _window_rules(F, rep)
+    if getattr(F, "cfg", "dev") == "dev":
+        _slide_rule(F, rep)
     # notes: heuristic helpers outside the armed modules
     for f in F.funcs.values():
         if f.key.startswith("ragc_core::agc_compressor::") and any(is_call(t, r"kmer::Kmer::insert") for _, t in f.calls()):
@@ -368,3 +370,78 @@ def _window_report(F, rep, counts, results, comp, new, reset, rcb, ins, rck):
 def lift_zero(v):
     from slots import Word
     return v == 0 or (isinstance(v, Word) and v.is_const() and v.to_int() == 0)
+
+
+# ---------------------------------------------------------------------------------------------------- K7: the slide itself
+def _canon_windows(x, k):
+    """canonical k-mers of x in order, from scratch: every window of k symbols below 4, left-aligned 2-bit packing"""
+    out, run = [], 0
+    for i, b in enumerate(x):
+        if b > 3:
+            run = 0
+            continue
+        run += 1
+        if run >= k:
+            w = x[i - k + 1:i + 1]
+            d = r = 0
+            for c in w:
+                d = (d << 2) | c
+            for c in reversed(w):
+                r = (r << 2) | (3 - c)
+            out.append(min(d, r) << (64 - 2 * k))
+    return out
+
+
+def _slide_domain():
+    import itertools
+    import random
+    dom = []
+    for k in (1, 2, 3):
+        for L in range(0, 5):
+            for x in itertools.product(range(5), repeat=L):
+                dom.append((list(x), k))
+    for x in itertools.product((0, 3, 4), repeat=5):
+        dom.append((list(x), 3))
+    rnd = random.Random(20)
+    for k in range(1, 33):
+        for L in (k - 1, k, k + 1, k + 3):
+            if L < 0:
+                continue
+            x = [rnd.randrange(4) for _ in range(L)]
+            dom.append((x, k))
+            if L > k:
+                y = list(x)
+                y[rnd.randrange(L)] = 4 + rnd.randrange(2) * 26          # N (4) or the unknown-letter code (30)
+                dom.append((y, k))
+        dom.append(([rnd.randrange(4) for _ in range(2 * k + 1)], k))
+    return dom
+
+
+def _slide_rule(F, rep):
+    """enumerate_kmers(x, k) is the list of from-scratch canonical values of every full window, for a finite domain that holds
+    every sequence of up to 4 symbols over ACGT+N for k = 1..3 and, for every k = 1..32, sequences of k-1, k, k+1, k+3, 2k+1
+    symbols (with and without a non-ACGT symbol)."""
+    from vecint import VecInterp
+    from absint import Undecidable, Panic
+    f = F.funcs.get("ragc_core::kmer_extract::enumerate_kmers")
+    if not rep.floor("C20-K7", 1 if f else 0, 1, "kmer_extract::enumerate_kmers"):
+        return
+    bad, undec, n = [], None, 0
+    for x, k in _slide_domain():
+        n += 1
+        try:
+            r = VecInterp(F).call(f, [("refval", list(x)), k])
+        except Panic as e:
+            bad.append("%s, k=%d: panics (%s)" % (x, k, e))
+            continue
+        except Undecidable as e:
+            undec = "%s, k=%d: %s" % (x, k, e)
+            break
+        want = _canon_windows(x, k)
+        if list(r) != want:
+            bad.append("%s, k=%d: gives %d value(s) %s, the windows are %s" % (x, k, len(r), [hex(v) for v in list(r)[:3]], [hex(v) for v in want[:3]]))
+    rep.ob("C20-K7", "sliding over a sequence yields, in order, the from-scratch canonical value of every full window (a sequence of exactly k bases has one; "
+           "a non-ACGT symbol restarts the window) on the finite domain", undec is None and not bad,
+           detail=("undecidable construct: %s" % undec) if undec else ("%d (sequence, k) pairs evaluated" % n if not bad else "%d of %d pairs differ, e.g. %s" % (len(bad), n, "; ".join(bad[:3]))),
+           site="%s:%d" % (f.file, f.line_lo), key="C20-K7 | enumerate_kmers | slide equals from-scratch windows")
+    rep.stat("slide_pairs_evaluated", n)
